@@ -255,7 +255,7 @@ func replayMain(t *testing.T) {
 	if (strings.HasPrefix(rf.Class, "crash:") || rf.Class == "hang") && os.Getenv("VERIF_REPLAY_CHILD") == "" {
 		// the run kills its process: execute it in a child and compare the way it dies
 		cmd := exec.Command(selfExe(), "-test.run", "^TestVerif$", "-test.timeout", "10m", "-verif.mode", "replay", "-verif.replay", *fReplay)
-		cmd.Env = append(os.Environ(), "VERIF_REPLAY_CHILD=1", "GOTRACEBACK=all")
+		cmd.Env = append(os.Environ(), "VERIF_REPLAY_CHILD=1", "GOTRACEBACK=crash")
 		var buf strings.Builder
 		cmd.Stdout, cmd.Stderr = &buf, &buf
 		cmd.Start()
@@ -662,7 +662,7 @@ func checkMain(t *testing.T) {
 				args := []string{"-test.run", "^TestVerif$", "-test.timeout", "12h", "-verif.mode", "worker", "-verif.prop", prop, "-verif.seed", strconv.FormatUint(*fSeed, 10),
 					"-verif.from", strconv.Itoa(from), "-verif.stride", strconv.Itoa(workers), "-verif.count", strconv.Itoa(cnt), "-verif.budget", left.String()}
 				cmd := exec.Command(selfExe(), args...)
-				cmd.Env = append(os.Environ(), "GOMAXPROCS=2", "GOTRACEBACK=all")
+				cmd.Env = append(os.Environ(), "GOMAXPROCS=2", "GOTRACEBACK=crash")
 				stdout, _ := cmd.StdoutPipe()
 				var stderr strings.Builder
 				cmd.Stderr = &stderr
@@ -859,7 +859,7 @@ func checkMain(t *testing.T) {
 		path := filepath.Join(outDir, "replays", name)
 		mcmd := exec.Command(selfExe(), "-test.run", "^TestVerif$", "-test.timeout", "1h", "-verif.mode", "minimise", "-verif.prop", prop, "-verif.class", class,
 			"-verif.scenario", wl.Scenario, "-verif.seed", strconv.FormatUint(wl.Seed, 10), "-verif.baseseed", strconv.FormatUint(*fSeed, 10), "-verif.from", strconv.Itoa(wl.Idx), "-verif.replay", path)
-		mcmd.Env = append(os.Environ(), "GOTRACEBACK=all")
+		mcmd.Env = append(os.Environ(), "GOTRACEBACK=crash")
 		var mbuf strings.Builder
 		mcmd.Stdout, mcmd.Stderr = &mbuf, &mbuf
 		mcmd.Start()
@@ -1262,7 +1262,8 @@ func classifyCrash(ci crashInfo) (class, owner string) {
 		// only a goroutine that is running (not blocked) inside library code is a library hang
 		running := ""
 		for _, blk := range strings.Split(ci.Stderr, "\n\n") {
-			if strings.Contains(blk, "[running") || strings.Contains(blk, "[runnable") {
+			// (a goroutine that allocates in a loop is often caught helping the collector)
+			if strings.Contains(blk, "[running") || strings.Contains(blk, "[runnable") || strings.Contains(blk, "[GC assist") {
 				if fr := libFrames(blk); len(fr) > 0 {
 					running = fr[0]
 					break
